@@ -139,11 +139,21 @@ type chunkReader struct {
 	chunks func() int // next chunk size (≥1)
 	failAt int        // -1: never; otherwise fail once pos reaches failAt
 	failed bool
+	// how the fault is delivered: 0 = (0, err) and the same again on every later call; 1 = the bytes before the fault TOGETHER with
+	// the error in one call, then (0, io.EOF); 2 = bytes together with the error, then (0, err) again; 3 = (0, err) once, then (0, io.EOF)
+	style int
 }
 
 var errInjected = errors.New("injected read fault")
 
 func (r *chunkReader) Read(p []byte) (int, error) {
+	if r.failed {
+		switch r.style {
+		case 1, 3:
+			return 0, io.EOF
+		}
+		return 0, errInjected
+	}
 	if r.failAt >= 0 && r.pos >= r.failAt {
 		r.failed = true
 		return 0, errInjected
@@ -160,6 +170,14 @@ func (r *chunkReader) Read(p []byte) (int, error) {
 	}
 	if r.pos+n > len(r.data) {
 		n = len(r.data) - r.pos
+	}
+	if r.failAt >= 0 && r.pos+n >= r.failAt && (r.style == 1 || r.style == 2) && len(p) >= r.failAt-r.pos {
+		// the last bytes before the fault arrive in the same call as the error
+		n = r.failAt - r.pos
+		copy(p, r.data[r.pos:r.pos+n])
+		r.pos += n
+		r.failed = true
+		return n, errInjected
 	}
 	if r.failAt >= 0 && r.pos+n > r.failAt {
 		n = r.failAt - r.pos
@@ -225,7 +243,7 @@ func genGrammarQuery(r *rng, depth int) string {
 	return gPath(r, "$", depth, false)
 }
 
-var gKeys = []string{"a", "b", "k", "xs", "Key", "n_1", "é", "a?", "b?", "k?"}
+var gKeys = []string{"a", "b", "k", "xs", "Key", "n_1", "é", "a?", "b?", "k?", "?", "xs?"}
 var gNums = []string{"0", "1", "-1", "1.5", "-0.25", "1e3", "2.5e-3", "123456789012345", "0.1", "10", "1E2", "007", "+3", "1e-7", "0700", "010", "0x1F", "0x10", "0b11", "0o17", "1_000", "0_17", "0x1p-2", "08", "00.5"}
 var gStrs = []string{`""`, `"abc"`, `"a b"`, `"a\"b"`, `"a\\b"`, `"l1\nl2"`, `"t\tb"`, `"é"`, `"'"`, "\"`\"", `"\\n"`, `"\\\""`, `"$.a"`, `"x,y"`, `"(]"`, `"日本"`}
 
@@ -264,6 +282,9 @@ func gPath(r *rng, root string, depth int, pred bool) string {
 		if r.Intn(3) == 0 {
 			sb.WriteString(gFilter(r, depth-1))
 		}
+		if r.Intn(8) == 0 { // a mark directly after a filter
+			sb.WriteString("?")
+		}
 	}
 	nf := r.Intn(3)
 	if pred && nf == 0 {
@@ -277,6 +298,9 @@ func gPath(r *rng, root string, depth int, pred bool) string {
 			args = append(args, gArg(r, depth, gFuncs))
 		}
 		sb.WriteString("." + fn + "(" + strings.Join(args, ",") + ")")
+		if r.Intn(7) == 0 { // a mark directly after a call
+			sb.WriteString("?")
+		}
 	}
 	if r.Intn(12) == 0 {
 		sb.WriteString("." + r.Pick(gKeys))
@@ -441,12 +465,16 @@ func runParse(c *Ctx, std *fdCapture) {
 					}
 				}
 				for _, k := range offs {
-					cr := &chunkReader{data: []byte(q), failAt: k, chunks: func() int { return 1 + r.Intn(4) }}
+					cr := &chunkReader{data: []byte(q), failAt: k, chunks: func() int { return 1 + r.Intn(4) }, style: (k + c.N) % 4}
+					if k == 0 && cr.style != 0 {
+						cr.style = 3
+					}
 					b0 := std.size()
 					got := parseWith(func() (mpath.Operation, error) { return mpath.ParseReadSeeker(cr) })
 					if cr.failed && got.Class != "ERR" {
-						v := mk("fault", fmt.Sprintf("a reader that fails at offset %d yields %s instead of an error", k, got.Class))
-						v.Key = "fault:" + got.Class
+						v := mk("fault", fmt.Sprintf("a reader that fails at offset %d (%s) yields %s instead of an error", k,
+							[]string{"no bytes with the error, the error again on later calls", "the bytes before the fault in the same call as the error, then end of input", "bytes with the error, then the error again", "the error once, then end of input"}[cr.style], got.Class))
+						v.Key = fmt.Sprintf("fault:%s:style%d", got.Class, cr.style)
 						v.Extra = map[string]any{"fail_at": k, "result": trunc(got.Line, 200)}
 						c.addViolation(v)
 					}
@@ -456,6 +484,18 @@ func runParse(c *Ctx, std *fdCapture) {
 						c.addViolation(v)
 					}
 					c.Extra["fault_injections"] = asInt(c.Extra["fault_injections"]) + 1
+				}
+				// a reader that cannot even seek, then the query once more: the parse that ended early must not change the next one
+				if got := parseWith(func() (mpath.Operation, error) { return mpath.ParseReadSeeker(seekFailer{}) }); got.Class != "ERR" {
+					v := mk("fault", "a reader whose Seek fails yields "+got.Class+" instead of an error")
+					v.Key = "fault:seek:" + got.Class
+					c.addViolation(v)
+				}
+				if after := parseStr(q); after.Line != line {
+					v := mk("history", "the same query parsed again after parses that ended in reader faults gives a different result")
+					v.Extra = map[string]string{"first": trunc(line, 200), "again": trunc(after.Line, 200)}
+					v.Key = "history:after-faults"
+					c.addViolation(v)
 				}
 			}
 		}
